@@ -109,7 +109,15 @@ def guard_facts(cfg):
         return a & b
 
     IN, _OUT = cfg.forward(frozenset(), flow, join, edge)
-    return dict((k, frozenset(f for (f, _n) in v)) for k, v in IN.items())
+    out = dict((k, frozenset(f for (f, _n) in v)) for k, v in IN.items())
+    # a tested boolean temporary stands for its definition (`t = A and B ; if t:` establishes A and B)
+    fn = getattr(cfg, "fn", None)
+    if isinstance(fn, (ast.FunctionDef, ast.AsyncFunctionDef)):
+        from .astutil import Resolver
+        res = Resolver(fn)
+        if any(f[0] in ("true", "false") and f[1].isidentifier() for v in out.values() for f in v):
+            out = dict((k, with_bool_temps(v, res)) for k, v in out.items())
+    return out
 
 
 def has_cmp(facts, a, op, b):
@@ -167,3 +175,41 @@ def entails_nonneg(facts, goal):
             if not diff[0] and diff[1] >= 0:
                 return f
     return None
+
+
+def with_bool_temps(facts, resolver):
+    """The fact set augmented with what a tested boolean temporary stands for: `t = A and B ; if t:` gives A and B as well.  Only for a
+    local with a single definition whose own names are bound at most once in the function (the value tested is the value defined)."""
+    out = set(facts)
+    todo = [f for f in facts if f[0] in ("true", "false")]
+    seen = set()
+    while todo:
+        f = todo.pop()
+        if f in seen:
+            continue
+        seen.add(f)
+        name = f[1]
+        if not name.isidentifier():
+            continue
+        d = resolver.unique_def(name)
+        if d is None:
+            continue
+        stable = all(len(resolver.defs.get(n.id, [])) <= 1 or n.id in resolver.params and len(resolver.defs.get(n.id, [])) == 0
+                     for n in ast.walk(d) if isinstance(n, ast.Name))
+        if not stable:
+            continue
+        def atoms_of(e, pol):
+            if isinstance(e, ast.BoolOp) and ((isinstance(e.op, ast.And) and pol) or (isinstance(e.op, ast.Or) and not pol)):
+                res = []
+                for v in e.values:
+                    res.extend(atoms_of(v, pol))
+                return res
+            if isinstance(e, ast.UnaryOp) and isinstance(e.op, ast.Not):
+                return atoms_of(e.operand, not pol)
+            return atom(e, pol)
+        for a in atoms_of(d, f[0] == "true"):
+            if a not in out:
+                out.add(a)
+                if a[0] in ("true", "false"):
+                    todo.append(a)
+    return frozenset(out)
